@@ -119,6 +119,13 @@ fn with_step(_: &mut ZooA, #[step] s: &Step, word: String) {
     rec(format!("with_step({},{word})", s.value));
 }
 
+/// Records the doc string and the table of the step it is handed.
+#[given(regex = r"^ctxdoc (\w+)$")]
+fn ctx_doc(_: &mut ZooA, word: String, step: &Step) {
+    let rows = step.table.as_ref().map(|t| t.rows.clone()).unwrap_or_default();
+    rec(format!("ctx_doc({word},{:?},{rows:?})", step.docstring.as_deref().map(str::trim)));
+}
+
 #[given(regex = r"^named ctx (\w+)$")]
 fn with_step_named(_: &mut ZooA, word: String, step: &Step) {
     rec(format!("with_step_named({word},{})", step.value));
@@ -507,6 +514,10 @@ pub fn entries() -> Vec<Entry> {
         }),
         e(0, Given, "dup_lit1", |t| (t == "same literal").then(|| Expect::Call("dup_lit1()".into()))),
         e(0, Given, "dup_lit2", |t| (t == "same literal").then(|| Expect::Call("dup_lit2()".into()))),
+        e(0, Given, "ctx_doc", |t| {
+            let w = t.strip_prefix("ctxdoc ")?;
+            word_chars(w).then(|| Expect::Call(format!("ctx_doc({w},None,[])")))
+        }),
         e(1, Given, "b_lit", |t| (t == "a literal step").then(|| Expect::Call("b_lit(7)".into()))),
         e(1, When, "b_re", |t| {
             let n = t.strip_prefix("b ")?;
@@ -559,7 +570,7 @@ pub fn texts(max_tokens: usize) -> Vec<String> {
         "async 7", "async 256", "async x", "result ok", "result err", "result maybe", "alias ok", "alias err", "alias maybe", "io ok", "io err",
         "async result ok", "async result no", "async result two words",
         "parse 12", "parse 300", "parse x", "parse -1", "multi lit", "multi re", "multi expr", "multi", "multi lit ",
-        "twice 2", "twice x", "same literal", "same  literal",
+        "ctxdoc w1", "ctxdoc two words", "twice 2", "twice x", "same literal", "same  literal",
         "abc named group", "two words named group", "éa named group", "zoë named group",
         "café 12 crêpes for Chloé", "café 7 crêpes for é", "café 7 crêpes for Zoëé", "cafe 12 crêpes for Chloé",
         "café 99999999999 crêpes for Chloé", "b 12", "b 70000", "b x",
@@ -732,17 +743,33 @@ pub fn run(a: &ShardArgs) -> serde_json::Value {
     std::panic::set_hook(Box::new(|_| {}));
     check_world::<ZooA>(0, ZooA::default, &txts, &es, a, &mut counters, &mut violations, &mut samples);
     check_world::<ZooB>(1, ZooB::new, &txts, &es, a, &mut counters, &mut violations, &mut samples);
+    if a.si == 0 {
+        counters.0 += 1;
+        for msg in c19_step_context() {
+            violations.push(json!({
+                "engine": "hist", "property": "C19", "tier": a.tier, "key": "step-context",
+                "step_context": true, "message": msg,
+            }));
+        }
+    }
     json!({
         "property": "C19", "tier": a.tier,
         "total_configs": txts.len() * 6, "configs_done": counters.0, "configs_skipped_budget": 0,
         "evaluations": counters.0 + reg, "distinct_nontrivial": counters.1,
-        "rule": format!("a zoo of {} attribute instances on 29 functions for 2 Worlds (sync/async, unit/Result, typed args, slice, #[step] / `step` argument, literal / regex = / expr =, custom Parameter with one and several groups, several attributes on one fn, named group) x every text of <= {} tokens over a 12-token alphabet plus positive / near-miss texts of every entry (prefix, suffix, padding, case) x 3 keywords; non-trivial = lookups that dispatch to a function", es.len(), if a.thorough {5} else {3}),
+        "rule": format!("a zoo of {} attribute instances on 30 functions for 2 Worlds (sync/async, unit/Result, typed args, slice, #[step] / `step` argument, literal / regex = / expr =, custom Parameter with one and several groups, several attributes on one fn, named group) x every text of <= {} tokens over a 12-token alphabet plus positive / near-miss texts of every entry (prefix, suffix, padding, case) x 3 keywords; non-trivial = lookups that dispatch to a function", es.len(), if a.thorough {5} else {3}),
         "exhaustive": true,
         "violations": violations, "samples": samples,
     })
 }
 
 pub fn replay(j: &serde_json::Value) -> i32 {
+    if j["step_context"].as_bool() == Some(true) {
+        let v = c19_step_context();
+        for m in &v {
+            println!("violation C19 [step-context]: {m}");
+        }
+        return i32::from(!v.is_empty());
+    }
     let a = ShardArgs {
         prop: "C19".into(),
         tier: "quick".into(),
@@ -771,6 +798,71 @@ pub fn replay(j: &serde_json::Value) -> i32 {
         println!("violation C19: {}", v["message"]);
     }
     i32::from(!violations.is_empty())
+}
+
+// ------------------------------------- C19: the step handed to a `#[step]` argument
+
+/// Through the real runner: every executed step hands *its own* `gherkin::Step` (doc
+/// string, table) to a `step` argument, also when other steps look the same by text and
+/// position (another feature with the same layout, rows of an outline whose placeholders
+/// sit in the doc string / table only).
+pub fn c19_step_context() -> Vec<String> {
+    let feat = |name: &str, doc: &str| -> gherkin::Feature {
+        let text = format!(
+            "Feature: {name}\n  Scenario: s\n    Given ctxdoc same\n      \"\"\"\n      {doc}\n      \"\"\"\n"
+        );
+        gherkin::Feature::parse(&text, gherkin::GherkinEnv::default()).expect("ctx feature")
+    };
+    let outline = {
+        use cucumber::feature::Ext as _;
+        let text = "Feature: O\n  Scenario Outline: o\n    Given ctxdoc row\n      | k | <v> |\n    Examples:\n      | v |\n      | r1 |\n      | r2 |\n";
+        gherkin::Feature::parse(text, gherkin::GherkinEnv::default())
+            .expect("outline")
+            .expand_examples()
+            .expect("expansion")
+    };
+    CALLS.with(|c| c.borrow_mut().clear());
+    let runner = cucumber::runner::Basic::<ZooA>::default()
+        .max_concurrent_scenarios(Some(1))
+        .steps(ZooA::collection());
+    let prev = std::panic::take_hook();
+    std::panic::set_hook(Box::new(|_| {}));
+    let run = std::panic::catch_unwind(AssertUnwindSafe(|| {
+        futures::executor::block_on(
+            cucumber::Cucumber::<ZooA, _, (), _, _, cucumber::cli::Empty>::custom(
+                ZParser(vec![feat("A", "one"), feat("B", "two"), outline]),
+                runner,
+                ZRec::default(),
+            )
+            .with_cli(cucumber::cli::Opts::<cucumber::cli::Empty, cucumber::runner::basic::Cli, cucumber::cli::Empty, cucumber::cli::Empty> {
+                re_filter: None,
+                tags_filter: None,
+                parser: cucumber::cli::Empty,
+                runner: cucumber::runner::basic::Cli::default(),
+                writer: cucumber::cli::Empty,
+                custom: cucumber::cli::Empty,
+            })
+            .run(()),
+        )
+    }));
+    std::panic::set_hook(prev);
+    if run.is_err() {
+        return vec!["the run panicked".into()];
+    }
+    let calls = CALLS.with(|c| c.borrow().clone());
+    let want = vec![
+        "ctx_doc(same,Some(\"one\"),[])".to_owned(),
+        "ctx_doc(same,Some(\"two\"),[])".to_owned(),
+        "ctx_doc(row,None,[[\"k\", \"r1\"]])".to_owned(),
+        "ctx_doc(row,None,[[\"k\", \"r2\"]])".to_owned(),
+    ];
+    if calls == want {
+        vec![]
+    } else {
+        vec![format!(
+            "steps with equal text and position but different doc strings / tables: the `step` argument saw {calls:?}, the steps executed were {want:?}"
+        )]
+    }
 }
 
 // ------------------------------------------------- C10: errors of macro steps
